@@ -995,7 +995,12 @@ func (x *Exec) runStep(sc *Scenario, st *Step) {
 func (x *Exec) runOne(sc *Scenario, st *Step) Ev {
 	nF := len(x.frames)
 	ev := Ev{"scn": x.scn, "prop": sc.Prop, "i": x.step, "op": st.Op, "recv": st.Recv, "out": -1, "pan": 0,
-		"obs": emptyObs, "dig": 0, "a": Ev{"_": 0}, "race": 0, "conc": 0}
+		"obs": emptyObs, "dig": 0, "a": Ev{"_": 0}, "race": 0, "conc": 0, "ambjudge": 0}
+	for _, o := range st.Opts {
+		if o == 77 { // judge this step also on a frame with an ambiguous enum table (Judge.tla AmbFrame; finding D21)
+			ev["ambjudge"] = 1
+		}
+	}
 	calls0 := atomic.LoadInt64(&callCount)
 	x.cur = sc
 	watchStep(sc, x.scn, x.step)
